@@ -516,6 +516,24 @@ func mkBin(op Op, a, b *Term) *Term {
 			if a == b && op == OpBXor {
 				return mkBV(w, 0)
 			}
+			if op == OpBXor {
+				if a.op == OpBXor {
+					if a.args[0] == b {
+						return a.args[1]
+					}
+					if a.args[1] == b {
+						return a.args[0]
+					}
+				}
+				if b.op == OpBXor {
+					if b.args[0] == a {
+						return b.args[1]
+					}
+					if b.args[1] == a {
+						return b.args[0]
+					}
+				}
+			}
 		case OpShl, OpLshr, OpAshr:
 			if b.IsConst() && b.val == 0 {
 				return a
@@ -526,6 +544,29 @@ func mkBin(op Op, a, b *Term) *Term {
 			if b.IsConst() && b.val >= uint64(w) && op != OpAshr {
 				return mkBV(w, 0)
 			}
+		}
+	} else if op == OpBXor {
+		if a == b {
+			return mkBigBV(w, new(big.Int))
+		}
+		if a.op == OpBXor {
+			if a.args[0] == b {
+				return a.args[1]
+			}
+			if a.args[1] == b {
+				return a.args[0]
+			}
+		}
+		if b.op == OpBXor {
+			if b.args[0] == a {
+				return b.args[1]
+			}
+			if b.args[1] == a {
+				return b.args[0]
+			}
+		}
+		if a.IsConst() && b.IsConst() {
+			return mkBigBV(w, new(big.Int).Xor(a.big, b.big))
 		}
 	} else if a.IsConst() && b.IsConst() {
 		x, y := a.big, b.big
